@@ -47,10 +47,18 @@ func toBytesTriples(p *Prog, fn *ssa.Function) ([]flagTriple, int64, string) {
 	var mk int64 = -1
 	recv := "P:" + paramName(fn.Params[0])
 	why := ""
-	var walk func(e *Env, depth int)
-	walk = func(e *Env, depth int) {
+	// where each write happens, seen from the writer itself (the store, or the writer's call that leads to it), and whether it
+	// assigns the mask instead of OR-ing it in
+	var tops []ssa.Instruction
+	var over []bool
+	var walk func(e *Env, depth int, top ssa.Instruction)
+	walk = func(e *Env, depth int, top0 ssa.Instruction) {
 		for _, b := range e.Fn.Blocks {
 			for _, in := range b.Instrs {
+				top := top0
+				if depth == 0 {
+					top = in
+				}
 				switch x := in.(type) {
 				case *ssa.MakeSlice:
 					if k, ok := constInt(x.Len); ok {
@@ -69,7 +77,7 @@ func toBytesTriples(p *Prog, fn *ssa.Function) ([]flagTriple, int64, string) {
 					}
 				case *ssa.Call:
 					if sc := x.Call.StaticCallee(); sc != nil && len(sc.Blocks) > 0 && sc.Pkg != nil && strings.HasPrefix(sc.Pkg.Pkg.Path(), modPath) && depth < 3 && sc != e.Fn {
-						walk(e.Sub(x, sc), depth+1)
+						walk(e.Sub(x, sc), depth+1, top)
 					}
 				case *ssa.Store:
 					ia, ok := x.Addr.(*ssa.IndexAddr)
@@ -81,14 +89,18 @@ func toBytesTriples(p *Prog, fn *ssa.Function) ([]flagTriple, int64, string) {
 						why = "non-constant byte index at " + p.InstrPos(x)
 						return
 					}
-					bo, ok := x.Val.(*ssa.BinOp)
-					if !ok || bo.Op != token.OR {
-						why = "a byte is written by something else than |= mask"
+					var ml LE
+					assigns := false
+					if bo, ok := x.Val.(*ssa.BinOp); ok && bo.Op == token.OR {
+						ml = e.LE(bo.Y)
+						if !ml.isConst() {
+							ml = e.LE(bo.X)
+						}
+					} else if ml = e.LE(x.Val); ml.isConst() {
+						assigns = true // `b[i] = mask`: the same as |= only while nothing else was written into that byte
+					} else {
+						why = "a byte is written by something else than a mask (|= mask or = mask)"
 						return
-					}
-					ml := e.LE(bo.Y)
-					if !ml.isConst() {
-						ml = e.LE(bo.X)
 					}
 					if !ml.isConst() {
 						why = "non-constant mask"
@@ -106,13 +118,29 @@ func toBytesTriples(p *Prog, fn *ssa.Function) ([]flagTriple, int64, string) {
 						return
 					}
 					out = append(out, flagTriple{il.k, ml.k, field})
+					tops = append(tops, top)
+					over = append(over, assigns)
 				}
 			}
 		}
 	}
-	walk(p.Env(fn), 0)
+	walk(p.Env(fn), 0, nil)
 	if why != "" {
 		return nil, mk, why
+	}
+	for k := range out {
+		if !over[k] {
+			continue
+		}
+		if mk < 0 {
+			return nil, mk, "a byte of a buffer that is not allocated here is assigned a mask"
+		}
+		for j := range out {
+			if j != k && out[j].idx == out[k].idx && (tops[j] == tops[k] || instrReaches(fn, tops[j], tops[k], nil)) {
+				return nil, mk, fmt.Sprintf("VIOLATION: byte %d is assigned the mask of %s at %s after the mask of %s may have been put into it: %s is lost whenever both flags are set",
+					out[k].idx, out[k].field, p.InstrPos(tops[k]), out[j].field, out[j].field)
+			}
+		}
 	}
 	return out, mk, ""
 }
@@ -254,6 +282,9 @@ func c20r1(c *Ctx) {
 			return strings.Join(s, ", ")
 		}
 		switch {
+		case strings.HasPrefix(werr, "VIOLATION: "):
+			c.FailX(Oblig{Rule: rule, Func: FuncName(to), Construct: construct, Pos: pos, Kind: "violation", Detail: strings.TrimPrefix(werr, "VIOLATION: "),
+				Expected: "flags that share a byte are OR-ed into it"})
 		case werr != "":
 			c.Fail(rule, "undecided", FuncName(to), construct, pos, "writer table cannot be extracted: "+werr)
 		case rerr != "":
@@ -264,8 +295,11 @@ func c20r1(c *Ctx) {
 			c.FailX(Oblig{Rule: rule, Func: FuncName(to), Construct: construct, Pos: pos, Kind: "violation",
 				Detail: "writer and reader disagree: ToBytes writes {" + key(w) + "}, " + x.from + " reads {" + key(r) + "}", Expected: "identical (byte, mask, field) triples"})
 		case made != tested || made < 1:
-			c.FailX(Oblig{Rule: rule, Func: FuncName(to), Construct: construct, Pos: pos, Kind: "violation",
-				Detail: fmt.Sprintf("ToBytes allocates %d bytes but %s accepts exactly %d", made, x.from, tested)})
+			d := fmt.Sprintf("ToBytes allocates %d bytes but %s accepts exactly %d", made, x.from, tested)
+			if tested < 0 {
+				d = fmt.Sprintf("ToBytes allocates %d bytes but %s does not insist on exactly that length: bytes of another length are decoded into flags instead of yielding the empty value", made, x.from)
+			}
+			c.FailX(Oblig{Rule: rule, Func: FuncName(to), Construct: construct, Pos: pos, Kind: "violation", Detail: d})
 		default:
 			bad := ""
 			seen := map[string]bool{}
